@@ -111,6 +111,10 @@ func runC07(rc *RunCtx) {
 				sc.ReadTimeout, n.ReadTimeout = need, need
 			}
 			n.PortTimeout, n.TOStyle, n.Flusher, n.WriteTimeout, n.Hooks = sc.PortTimeout, sc.TOStyle, sc.Flusher, sc.WriteTimeout, sc.Hooks
+			if rc.Scen.Chance(1, 2) {
+				// the client sits idle for longer than its read timeout between the two calls
+				n.IdleBefore = sc.ReadTimeout + time.Duration(1+rc.Scen.Choose(50))*time.Millisecond
+			}
 			sc.Then, sc2 = n, n
 		}
 	}
